@@ -75,6 +75,10 @@ def wmc_lattice(rng):
         out.append((good + [0], f"wmc c={c} data+1"))
         out.append((req_wmc(10, bits, bytecount=0), f"wmc c={c} bytecount=0"))
         out.append((req_wmc(10, bits, bytecount=255), f"wmc c={c} bytecount=255"))
+        # more data than the quantity needs, with a byte-count field that agrees with the data (self-consistent lie)
+        for extra in (1, 2):
+            g = req_wmc(10, bits)
+            out.append((g[:5] + [(g[5] + extra) & 255] + g[6:] + [0xFF] * extra, f"wmc c={c} bytecount and data +{extra}"))
         out.append((req_wmc(10, bits, count=c + 8), f"wmc count field +8"))
         out.append((req_wmc(10, bits, count=0), f"wmc count field 0"))
     out.append(([15, 0, 0, 0, 1], "wmc no bytecount"))
@@ -93,6 +97,9 @@ def wmr_lattice(rng):
         out.append((good[:-1], f"wmr c={c} data-1"))
         out.append((good + [0], f"wmr c={c} data+1"))
         out.append((req_wmr(20, regs, bytecount=0), f"wmr c={c} bytecount=0"))
+        for extra in (1, 2, 4):
+            g = req_wmr(20, regs)
+            out.append((g[:5] + [(g[5] + extra) & 255] + g[6:] + [0x12, 0x34, 0x56, 0x78][:extra], f"wmr c={c} bytecount and data +{extra}"))
         out.append((req_wmr(20, regs, count=c + 1), f"wmr count field +1"))
         out.append((req_wmr(20, regs, count=0), f"wmr count field 0"))
     out.append(([16, 0, 0, 0, 1], "wmr no bytecount"))
